@@ -81,6 +81,10 @@ def _get(ec, name, shape):
     return v
 
 
+def _cij(ec):
+    return _get(ec, 'Cij', (6, 6))
+
+
 def _close(got, exp, tol, what):
     err = float(np.abs(np.asarray(got, dtype=float) - np.asarray(exp, dtype=float)).max())
     require(err <= tol, lambda: '%s: differs by %.3g (tol %.3g)\nexpected\n%r\ngot\n%r' % (what, err, tol, np.asarray(exp), np.asarray(got)))
@@ -457,9 +461,9 @@ FLOAT_NARROW = ('f32', 'f16', 'bf8', 'bf4')
 # numbers of a case are Python floats)
 INT_LIMIT = {'i8': 127, 'i16': 32767, 'i32': 2 ** 31 - 1, 'u8': 255, 'u16': 65535, 'u32': 2 ** 32 - 1, 'u64': 2 ** 63,
              'bi2': 32767, 'bi4': 2 ** 31 - 1, 'bi8': 2 ** 62, 'bool': 1}
-_dt = st.one_of(st.none(), st.none(), st.none(), st.none(), st.none(),
-                st.sampled_from(('f32', 'f32', 'f16', 'f16', 'bf8', 'bf4')), st.sampled_from(('f32', 'f16', 'bf8', 'bf4', 'f32')),
-                st.sampled_from(('i8', 'i8', 'i16', 'i16', 'i32', 'u8', 'u8', 'u16', 'u32', 'u64', 'bi2', 'bi4', 'bi8', 'bool')))
+# (weights by repetition inside ONE sampled_from: one_of() merges equal branches)
+_dt = st.sampled_from((None,) * 30 + ('f32', 'f32', 'f32', 'f32', 'f16', 'f16', 'f16', 'bf8', 'bf4', 'bf4')
+                      + ('i8', 'i16', 'i32', 'u8', 'u16', 'u32', 'u64', 'bi2', 'bi4', 'bi8', 'bool'))
 C_ROUTES = ('Cij', 'Cij9', 'Cijkl')
 IDENTITY_T = {'kind': 'named', 'system': 'cubic', 'C': {'C11': 1.0, 'C12': 0.0, 'C44': 1.0}, 'whole': True, 'fit': 'bool'}
 
@@ -556,7 +560,7 @@ def _form(x, form, dt=None, labels=None, prefix='in_'):
     b = _cast(a, dt)
     if b is not None:
         if labels is not None:
-            labels.update({prefix + 'dt_' + dt, prefix + 'dt'})
+            labels.update({prefix + 'dt_' + dt, prefix + 'dt', prefix + ('dt_float' if dt in FLOAT_NARROW else 'dt_int')})
         if form in ('int', 'array'):
             return b, 'array'
         if form in ('intlist', 'list'):
@@ -603,10 +607,7 @@ def _form(x, form, dt=None, labels=None, prefix='in_'):
 # unsigned scalars (-C14 of a numpy.uint16 wraps around) and the isotropic pair formulas (products of moduli: float32
 # arithmetic there is float32-accurate, which is all a caller of float32 numbers can ask for).
 NUM_NARROW = {'npf32': (np.float32, 2 ** 22), 'npf16': (np.float16, 500), 'npi32': (np.int32, 2 ** 29), 'npi16': (np.int16, 8000)}
-_num2 = st.one_of(st.sampled_from(('npfloat', 'float', 'int', 'npint', 'float', 'npfloat')),
-                  st.sampled_from(('npfloat', 'float', 'int', 'npint', 'float', 'npfloat')),
-                  st.sampled_from(('npfloat', 'float', 'int', 'npint', 'float', 'npfloat')),
-                  st.sampled_from(tuple(NUM_NARROW)))
+_num2 = st.sampled_from(('npfloat', 'float', 'int', 'npint', 'float', 'npfloat') * 2 + tuple(NUM_NARROW))
 
 
 def _fit_num(T, num):
@@ -641,6 +642,8 @@ def _numbers(kw, num, labels):
     for n, v in kw.items():
         out[n], used = _number(v, num)
         labels.add('num_' + used)
+        if used in NUM_NARROW:
+            labels.add('num_narrow')
     return out
 
 
@@ -820,8 +823,20 @@ _scribble = st.sampled_from((None, None, None) + REPS)
 _tensors_old = g.tensors(variants=True)
 # 8/10 the mixture of the earlier rounds, 1/10 near-threshold variants (almost a higher symmetry), 1/10 crystal-system
 # tensors with exactly relabelled axes
-_tensors = st.one_of(_tensors_old, _tensors_old, _tensors_old, _tensors_old, _tensors_old, _tensors_old, _tensors_old, _tensors_old,
-                     g.almost_tensors(), g.perm_tensors())
+_sel10 = st.sampled_from(tuple(range(10)))
+
+
+def _mix(old, *new):
+    """old in (10 - len(new))/10 of the draws, each of the new strategies in 1/10 (one_of() merges equal branches and is
+    far from uniform: an explicit selector)"""
+    @st.composite
+    def _m(draw):
+        k = draw(_sel10)
+        return draw(new[k]) if k < len(new) else draw(old)
+    return _m()
+
+
+_tensors = _mix(_tensors_old, g.almost_tensors(), g.perm_tensors())
 _caller = st.sampled_from((0, 1, 1))
 
 
@@ -854,7 +869,7 @@ def oracle_reps(case):
         listed = case.get('inform', 'list' if case.get('aslist') else 'array') in ('list', 'tuple', 'intlist')
         ec2 = _define(None, then, out.tolist() if listed else out, 'object rebuilt from the %s that atomman returned' % then)
         check_reps(ec2, mine, cond, floor, eps_t, 'built from my %s, rebuilt from its %s' % (via, then))
-        _close(ec2.Cij, ec.Cij, 1e-8 * np.abs(C6).max(), 'round trip %s -> %s -> Cij' % (via, then))
+        _close(_cij(ec2), _cij(ec), 1e-8 * np.abs(C6).max(), 'round trip %s -> %s -> Cij' % (via, then))
     labels.update({'via_' + via, 'then_' + then, 'list' if 'in_list' in labels or 'in_tuple' in labels or 'in_intlist' in labels else 'array'})
     if via != then:
         labels.add('reps_differ')
@@ -870,12 +885,11 @@ def oracle_reps(case):
 _how = st.sampled_from(['init', 'init', 'method', 'method', 'reuse', 'reuse'])
 _named_v = g.named(variants=True)
 _named_almost = g.almost_tensors().filter(lambda T: T['kind'] == 'named')
-_named_t = st.one_of(_named_v, _named_v, _named_v, _named_v, _named_v, _named_v, _named_v, _named_v, _named_v, _named_almost)
+_named_t = _mix(_named_v, _named_almost)
 # axes that miss orthogonality by 1e-13 ... 1e-10 (axes_check documents its tolerance: 1e-8; stay a factor 100 inside it):
 # [i, j, e]: row i gets e |row i| / |row j| times row j added
-_skew = st.one_of(st.none(), st.none(), st.none(), st.none(), st.none(), st.none(), st.none(),
-                  st.tuples(st.integers(0, 2), st.integers(1, 2), st.integers(-1300, -1000)).map(
-                      lambda t: [t[0], (t[0] + t[1]) % 3, 10.0 ** (t[2] / 100.0)]))
+_skew = _mix(st.none(), st.tuples(st.integers(0, 2), st.integers(1, 2), st.integers(-1300, -1000)).map(
+    lambda t: [t[0], (t[0] + t[1]) % 3, 10.0 ** (t[2] / 100.0)]))
 _formidx = st.integers(0, 7)
 _hexangle = st.one_of(gens.nice(0.0, 360.0, 2), st.sampled_from([30.0, 45.0, 90.0, 17.0]))
 _scale = st.one_of(st.none(), st.none(), st.lists(st.sampled_from([1.0, 2.0, 0.5, 3.7, 0.01, 250.0]), min_size=3, max_size=3))
@@ -952,7 +966,7 @@ def oracle_named(case):
         # atomman's rotation of atomman's matrix
         tr = _transform(ec, _axes(R, case['scale'], case.get('axform', case.get('aslist')), labels, case.get('axdt'), case.get('skew')),
                         got, 'transform(%s)' % name)
-        _close(tr.Cij, got, 1e-7 * cmax, '%s tensor under its symmetry rotation %s (transform)' % (system, name))
+        _close(_cij(tr), got, 1e-7 * cmax, '%s tensor under its symmetry rotation %s (transform)' % (system, name))
     _close(_get(ec, 'Cijkl', (3, 3, 3, 3)), el.voigt_to_tensor(C6), 1e-8 * cmax, '%s constants %r: Cijkl against my own map' % (system, sorted(kw)))
     if case['scale'] is not None:
         labels.add('nonunit_axes')
@@ -971,7 +985,7 @@ KEY_ME = _key('isotropic:M-E-pair-double-root-npfloat')
 
 
 _iso_v = g.isotropic(variants=True)
-_rot_iso = st.one_of(g.rot_specs(), g.rot_specs(), g.rot_specs(), g.rot_specs(), g.rot_specs(), g.rot_specs(), g.near_sym_rots(), g.perm_rots())
+_rot_iso = _mix(g.rot_specs(), g.near_sym_rots(), g.perm_rots())
 
 
 @st.composite
@@ -1048,7 +1062,7 @@ def oracle_isotropic(case):
         if first is None:
             first = ec
     R = _rotmat(case['rot'])
-    _close(_transform(first, R, C6, 'transform(%r) of the isotropic tensor' % (case['rot'],)).Cij, C6, 1e-7 * cmax, 'isotropic tensor under rotation %r' % (case['rot'],))
+    _close(_cij(_transform(first, R, C6, 'transform(%r) of the isotropic tensor' % (case['rot'],))), C6, 1e-7 * cmax, 'isotropic tensor under rotation %r' % (case['rot'],))
     _close(_get(first, 'Cijkl', (3, 3, 3, 3)), C4, 1e-8 * cmax, 'Cijkl of the isotropic tensor')
     if deferred is not None:
         raise deferred
@@ -1070,7 +1084,7 @@ SPECIAL_ROTS = [[[0, 0, 1], 90.0], [[1, 0, 0], 90.0], [[0, 1, 0], 90.0], [[1, 1,
                 [[1, 1, 0], 180.0], [[0, 0, 1], 33.0]]
 _rot_old = st.one_of(g.rot_specs(), g.rot_specs(), g.rot_specs(), st.sampled_from(SPECIAL_ROTS))
 # 8/10 as before, 1/10 a symmetry operation missed by 1e-10 ... 1e-2 degrees, 1/10 an exact signed permutation of the axes
-_rot = st.one_of(_rot_old, _rot_old, _rot_old, _rot_old, _rot_old, _rot_old, _rot_old, _rot_old, g.near_sym_rots(), g.perm_rots())
+_rot = _mix(_rot_old, g.near_sym_rots(), g.perm_rots())
 STYLES = (('bulk', 'Voigt'), ('bulk', 'Reuss'), ('bulk', 'Hill'), ('shear', 'Voigt'), ('shear', 'Reuss'), ('shear', 'Hill'))
 
 
@@ -1112,7 +1126,7 @@ def oracle_rotate(case):
     ec = _build(case, T, C6, mine, case.get('route', 'Cij'), labels, 'object to rotate', dt)
     ax = lambda R: _axes(R, case['scale'], case.get('axform', case.get('aslist')), labels, case.get('axdt'), case.get('skew'))
     # identity
-    _close(_transform(ec, ax(np.eye(3)), C6, 'transform(identity)').Cij, C6, t1tol, 'transform(identity)')
+    _close(_cij(_transform(ec, ax(np.eye(3)), C6, 'transform(identity)')), C6, t1tol, 'transform(identity)')
     # against my own tensor rotation
     t1 = _transform(ec, ax(R1), exp1, 'transform(R1)')
     got1 = _get(t1, 'Cij', (6, 6))
@@ -1131,9 +1145,9 @@ def oracle_rotate(case):
             labels.add('tol_zeroes_something')
     # composition and inverse
     t12 = _transform(t1, ax(R2), exp12, 'transform(R2) after transform(R1)')
-    _close(t12.Cij, exp12, t2tol, 'transform(R2) after transform(R1) against my own rotation by R2.R1')
-    _close(t12.Cij, _transform(ec, ax(R2 @ R1), exp12, 'transform(R2.R1)').Cij, t2tol, 'transform(R2) after transform(R1) against transform(R2.R1)')
-    _close(_transform(t1, ax(R1.T), C6, 'transform(R1^T) after transform(R1)').Cij, C6, t2tol, 'transform(R1^T) after transform(R1)')
+    _close(_cij(t12), exp12, t2tol, 'transform(R2) after transform(R1) against my own rotation by R2.R1')
+    _close(_cij(t12), _cij(_transform(ec, ax(R2 @ R1), exp12, 'transform(R2.R1)')), t2tol, 'transform(R2) after transform(R1) against transform(R2.R1)')
+    _close(_cij(_transform(t1, ax(R1.T), C6, 'transform(R1^T) after transform(R1)')), C6, t2tol, 'transform(R1^T) after transform(R1)')
     # strain energy of the co-rotated strain
     e = np.array(case['strain'], dtype=float)
     e_r = R1 @ e @ R1.T
@@ -1221,24 +1235,26 @@ def oracle_normalize(case):
     elif route == 'named':
         route = 'Cij'
     C6, mine, dt = _prepare(T, route, case.get('dt'))
+    if dt in FLOAT_NARROW and route in REPS:
+        built_from = None            # rounded to a float32 / float16 array: the relations between the entries hold to that precision only
     cmax = float(np.abs(C6).max())
     ec = _build(case, T, C6, mine, route, labels, 'object to normalise', dt)
     try:
         N = _track(ec.normalized_as(s), 'the object returned by normalized_as(%s)' % s, out=True)
     except ValueError as e:
         if s == 'monoclinic' and 'Invalid crystal_system' in str(e):
-            _close(ec.Cij, C6, 1e-8 * cmax, 'operand after refused normalized_as')
+            _close(_cij(ec), C6, 1e-8 * cmax, 'operand after refused normalized_as')
             return labels | {'refusal'}
         raise
     NC = _get(N, 'Cij', (6, 6))
     tol = 1e-8 * max(cmax, float(np.abs(NC).max()))
-    _close(ec.Cij, C6, 1e-8 * cmax, 'operand after normalized_as (must return a new object)')
+    _close(_cij(ec), C6, 1e-8 * cmax, 'operand after normalized_as (must return a new object)')
     # the result has the form of the system
     if True:
         _close(NC, g.place(s, _consts_from(s, NC)), tol, 'normalized_as(%s) result against the %s placement of its own constants' % (s, s))
     # idempotent
     N2 = _track(N.normalized_as(s), 'the object returned by normalized_as(%s) applied twice' % s, out=True)
-    _close(N2.Cij, NC, tol, 'normalized_as(%s) applied twice' % s)
+    _close(_cij(N2), NC, tol, 'normalized_as(%s) applied twice' % s)
     require(bool(N.is_normal(s)), lambda: 'is_normal(%s) is False on the result of normalized_as(%s)' % (s, s))
     # is_normal, both directions of its documented tolerance test (10x band around atol=rtol=1e-4)
     # (judged on the object's own matrix, which was checked against mine above: the Cij setter zeroes terms below
@@ -1662,40 +1678,40 @@ def oracle_combos(c):
 
 
 CLAUSES = [
-    Clause('reps', _ledgered(oracle_reps), reps_cases, quick=4500, thorough=100000,
+    Clause('reps', _ledgered(oracle_reps), reps_cases, quick=3800, thorough=100000,
            min_share={'nt': 0.2, 'reps_differ': 0.4, 'list': 0.25, 'via_Sijkl': 0.08, 'then_Cij9': 0.08, 'pre_looked': 0.1, 'pre_empty': 0.04,
                       'scribble': 0.2, 'near_iso': 0.1, 'scale_small': 0.1, 'scale_large': 0.04, 'in_readonly': 0.02, 'in_strided': 0.04,
                       'in_forder': 0.03},
            desc='build from one of Cij/Sij/Cij9/Cijkl/Sijkl, read all five against independent Voigt maps and compliance '
                 'weights; minor/major symmetries; Cijkl:Sklmn = symmetric identity; one stress-strain law through all five; '
                 'rebuild from atomman\'s own output of a second representation'),
-    Clause('named', _ledgered(oracle_named), named_cases, quick=3500, thorough=90000,
+    Clause('named', _ledgered(oracle_named), named_cases, quick=3000, thorough=90000,
            min_share={'nt': 0.4, 'how_method': 0.15, 'nonunit_axes': 0.15, 'how_reuse': 0.15, 'pre_looked': 0.03, 'near_iso': 0.1,
                       'scale_small': 0.08, 'num_int': 0.02, 'num_npint': 0.02, 'axes_readonly': 0.04, 'whole': 0.08},
            desc='crystal-system constructors in every documented keyword form against my placement table; invariance '
                 'under the system\'s symmetry generators by my rotation and by transform()'),
-    Clause('isotropic', _ledgered(oracle_isotropic), isotropic_cases, quick=2700, thorough=70000,
+    Clause('isotropic', _ledgered(oracle_isotropic), isotropic_cases, quick=2400, thorough=70000,
            min_share={'nt': 0.4, 'nu0': 0.04, 'npfloat': 0.25, 'reuse': 0.19, 'pre_looked': 0.05, 'scale_small': 0.14, 'scale_large': 0.04},
            desc='all 15 isotropic modulus pairs (with the C11/C12/C44 aliases) give the tensor of (E, nu); rotation invariance'),
-    Clause('rotate', _ledgered(oracle_rotate), rotate_cases, quick=3600, thorough=90000,
+    Clause('rotate', _ledgered(oracle_rotate), rotate_cases, quick=3000, thorough=90000,
            min_share={'nt': 0.4, 'nonunit_axes': 0.15, 'symmetry_element': 0.02, 'near_iso_rotates': 0.08, 'tiny_numbers_rotate': 0.012,
                       'pre_looked': 0.13, 'tol_given': 0.25, 'tol_zeroes_something': 0.02, 'route_model': 0.04, 'route_named': 0.05,
                       'scale_small': 0.1},
            desc='transform against my own tensor rotation; identity, composition, inverse; strain energy of co-rotated '
                 'strain; Voigt/Reuss/Hill bulk and shear against invariants and unchanged by rotation'),
-    Clause('history', _ledgered(oracle_history), history_cases, quick=1800, thorough=40000,
+    Clause('history', _ledgered(oracle_history), history_cases, quick=1600, thorough=40000,
            min_share={'nt': 0.22, 'back_to_earlier': 0.08, 'redefined_twice_after_reads': 0.13, 'scribble': 0.25, 'start_empty': 0.2,
                       'route_model': 0.07, 'route_named': 0.1},
            desc='one object defined and re-defined 2-5 times through every setter (all array-like input forms), '
                 'crystal-system method and model(), also back to an earlier tensor, with judged reads of every derived '
                 'quantity in between, writes to returned arrays, full representation check and a final rotation'),
-    Clause('normalize', _ledgered(oracle_normalize), normalize_cases, quick=4500, thorough=100000,
+    Clause('normalize', _ledgered(oracle_normalize), normalize_cases, quick=3800, thorough=100000,
            min_share={'nt': 0.3, 'fixed_point': 0.08, 'is_normal_false': 0.2, 'is_normal_true': 0.1, 'is_normal_tols_true': 0.08,
                       'is_normal_tols_false': 0.14, 'pre_looked': 0.1, 'near_iso': 0.08},
            max_share={'refusal': 0.2},
            desc='normalized_as idempotent, result has the form of the system, is_normal true on it and on tensors built '
                 'from that system\'s constants; is_normal both directions; monoclinic refused'),
-    Clause('units', _ledgered(oracle_units), units_cases, quick=1300, thorough=30000,
+    Clause('units', _ledgered(oracle_units), units_cases, quick=1000, thorough=30000,
            min_share={},
            desc='the physical tensor in working units set by reset_units (named units, integer seed, SI): the same build / '
                 'representations / rotation / moduli / is_normal / model(unit=) sequence under an earlier configuration, then '
